@@ -333,6 +333,12 @@ class Exec:
                 if not _maybe_true(cond) or not feasible(q.pc, cond):
                     continue
                 r = q.fork(cond, "if%d:%s" % (o, "T" if val else "F"))
+                # `if x:` / `if not x:` over a local: the branch knows x's truth value (same narrowing as `x or y`)
+                t, pos = st.test, val
+                if isinstance(t, ast.UnaryOp) and isinstance(t.op, ast.Not):
+                    t, pos = t.operand, not val
+                if isinstance(t, ast.Name) and t.id in r.env and hasattr(self, "narrow"):
+                    r.env[t.id] = self.narrow(r.env[t.id], pos)
                 out += self.block(body, [r])
         return out
 
